@@ -440,7 +440,9 @@ func stressRun(c *hx.Ctx, k int, r *rand.Rand) {
 	runtime.GOMAXPROCS(procs)
 	defer runtime.GOMAXPROCS(16)
 	nprod := 1 + r.IntN(16)
-	ap := agg.NewProcess(A*time.Minute, 1000*time.Hour, 1, nil) // only active expiry: flows are never deleted
+	// only active expiry may ever happen: the inactive timeout (200000 h) is far beyond everything the
+	// time-shift goroutine can accumulate (at most 20000 shifts of 61 min = 20333 h)
+	ap := agg.NewProcess(A*time.Minute, 200000*time.Hour, 1, nil)
 	for i := range corrFlow {
 		corrFlow[i] = false
 	}
@@ -573,8 +575,10 @@ func stressRun(c *hx.Ctx, k int, r *rand.Rand) {
 				return
 			default:
 			}
-			ap.VerifShiftDeadlines((A + 1) * time.Minute)
-			shifts.Add(1)
+			if shifts.Load() < 20000 {
+				ap.VerifShiftDeadlines((A + 1) * time.Minute)
+				shifts.Add(1)
+			}
 			time.Sleep(time.Millisecond)
 		}
 	}()
